@@ -16,6 +16,14 @@ CLAIMED = {
              "C18_two_wrappers, C18_rollback_restores_commit_keeps, by a log invariant and induction over the history). The model "
              "is tied to auditable.py by differential runs on generated and exhaustively enumerated histories evaluated in Coq.",
         design="0, 7/C18", technique="Coq proof (log invariant + simulation by induction over histories)" + T_CORR),
+    "C01": dict(
+        text="Proof: on a faithful Gallina model of SimpleMemory and Memory (three nested insertion-ordered dict indexes, per-triple context map with default-context "
+             "compression, context->triples map) and of the Graph layer: the store invariant is preserved by add/remove, add/remove change exactly the target graph as the set "
+             "operation says (all 8 wildcard shapes) and leave every other graph unchanged, triples(pattern) is a duplicate-free exact enumeration for all 8 shapes and any graph, "
+             "len/contains follow, whole histories and the set operators += -= + - * ^ (incl. aliasing) equal the mathematical set result (C01_history, C01_setops); no iterator step "
+             "ever raises for any schedule (C01_iter_no_raise). Iterator soundness is refuted by a witness (known finding F10) and otherwise only run. Tied to memory.py/graph.py by "
+             "differential histories, set-operator cases and iterator/mutation schedules.",
+        design="0, 7/C01", technique="Coq proof (index/context invariants, refinement to a quad set by induction over histories; small-step generator semantics)" + T_CORR),
     "C02": dict(
         text="Proof: on a Gallina model of ConjunctiveGraph/Dataset over an abstract quad store, for every state: add/remove are isolated "
              "per graph, remove without graph removes from all graphs, remove_graph empties and forgets only that graph, membership is exact, "
@@ -23,6 +31,19 @@ CLAIMED = {
              "(quads, graphs, per-graph views, union view) is proved for histories outside two known-finding trigger regions (partial). "
              "Tied to rdflib/graph.py by differential runs on generated histories incl. IRI- and bnode-named graphs, default_union on/off.",
         design="0, 7/C02", technique="Coq proof (invariants over dataset histories, refinement to a map graph name -> triple set)" + T_CORR),
+    "C03": dict(
+        text="Proof (partial): N-Triples text level at full strength - unquote(quote_encode s) = s for every Python string, the reader's literal scanner delimits exactly the written body, "
+             "and every well-formed readable triple/document written by the model of nt.py is read back as itself by the model of ntriples.py (the readability hypothesis the proof forced is "
+             "known finding F15b); Turtle string text: one-quote form for every string without line feed, three-quote form for strings without quote characters (rest by exhaustive enumeration "
+             "to length 6 over the special alphabet). Graph-level round trips of all eight formats (blank-node topologies, lists, literals) are conformance runs against a backtracking "
+             "isomorphism oracle, with 15 known findings identified by input-side triggers.",
+        design="0, 7/C03", technique="Coq proof (string codec round trips by induction over code points, regexes as deterministic scanners over reflected character tables)" + T_CORR),
+    "C05": dict(
+        text="Proof (partial): an executable strict reader for the W3C N-Triples/N-Quads grammar (validated on every run against all 157 W3C syntax test files) and a model of rdflib's writer: "
+             "for every well-formed row/document outside four writer trigger regions the strict reader reads rdflib's line as exactly the input quads (C05_nt_output_valid, C05_nq_output_valid, "
+             "C05_document_valid; IRIREF validity proved over the reflected _invalid_uri_chars table). Completeness of rdflib's reader on the W3C language, Turtle/TriG/RDF-XML/JSON-LD alternative "
+             "spellings and the equivalence of str/bytes/file/path sources are conformance runs with independent randomised writers. Eleven known findings.",
+        design="0, 7/C05", technique="Coq proof (grammar transcribed production by production as the specification, writer model proved to land inside it)" + T_CORR),
     "C06": dict(
         text="Proof (routing level): for every well-formed dataset the model of each serialiser/parser pair returns each triple to its graph up to "
              "blank-node renaming: N-Quads, HexTuples and RDF Patch add at full strength; TriG, TriX, JSON-LD and Patch diff/apply partial under "
@@ -47,6 +68,12 @@ CLAIMED = {
              "eq agrees with value equality for integers; decimal, float/double, date/time/duration, binary types are tied by correspondence/conformance runs "
              "against an independent oracle only. Seven groups of defects are known findings with refuting witnesses.",
         design="0, 7/C09", technique="Coq proof (lexical/value maps over Z, generic idempotence from parse-print identity; reflected tables)" + T_CORR),
+    "C10": dict(
+        text="Proof: on a model of update.py over a quad set + known graph names with the WHERE solutions as a parameter: INSERT DATA, DELETE DATA, DELETE WHERE, DELETE/INSERT (all deletions "
+             "before any insertion, full strength after the fix: commit), CLEAR, DROP, ADD, MOVE, COPY each equal the SPARQL 1.1 Update transformer (membership characterisations), untouched graphs "
+             "stay equal, operations run in order, template blank nodes come from an injective fresh supply (freshness w.r.t. the store only as a window property: partial). Seven known findings "
+             "(union-switch and Dataset corners, illegal template triples, unbound GRAPH ?g) with model-faithful triggers. Tied to Graph/ConjunctiveGraph/Dataset.update by differential requests.",
+        design="0, 7/C10", technique="Coq proof (dataset transformers, per-operation membership lemmas, induction over request sequences)" + T_CORR),
     "C11": dict(
         text="Proof: for every graph, every well-formed path expression and each of the four bound/unbound combinations of the ends the model of "
              "rdflib/paths.py (incl. MulPath with its shared seen set) yields exactly the pairs of the relational semantics, terminates within the stated fuel, "
@@ -59,6 +86,12 @@ CLAIMED = {
              "same document into two fresh graphs gives isomorphic graphs (bijection exhibited); refuted for the identity-label parsers TriX/JSON-LD/HexTuples (known finding F9). "
              "The checker recovers the label-to-node map from tag triples and judges what the eight real parsers produced.",
         design="0, 7/C12", technique="Coq proof (invariant over sequences of parse calls, freshness supply as section hypothesis)" + T_CORR),
+    "C13": dict(
+        text="Proof (partial): reads of the C02 dataset model are state transformers ds -> ds * out; for reads given no foreign Graph object quads, union-only triples and known graph names are "
+             "unchanged and the read is repeatable (C13_read_pure, C13_repeatable); refuted with witness for reads given a Graph from another store (known finding F19). The bodies of serialisers "
+             "and of the query engine are opaque in the model: for them a catalogue of 111 read-only API calls (all serialisers, SELECT/ASK/CONSTRUCT/DESCRIBE, paths, compare, slicing) is run twice "
+             "on generated datasets with snapshots taken straight off the store before/after.",
+        design="0, 7/C13", technique="Coq proof (reads as state transformers over the dataset model) + snapshot/repeat runs of every read-only API" + T_CORR),
     "C14": dict(
         text="Proof (partial): a backtracking isomorphism decision procedure is proved sound and complete (iso_dec = true <-> exists injective blank-node renaming) and judges "
              "isomorphic/to_isomorphic/to_canonical_graph of rdflib on symmetric families; graph_diff partition laws, soundness of canonical-form equality, and the skolemise/de-skolemise "
@@ -70,6 +103,18 @@ CLAIMED = {
              "for XML Chars (CR, control characters, empty IRI, falsy literals refuted: known findings), TSV term and row recovery for every W3C-conformant rendering (document level run only), "
              "CSV cells; the tie theorem covers JSON, XML and CSV cases outside the trigger regions. Tied to the four real writers/readers by differential runs on random tables.",
         design="0, 7/C16", technique="Coq proof (character-level codec round trips by induction, scanner models of the TSV grammar)" + T_CORR),
+    "C17": dict(
+        text="Proof: on a model of Memory.bind and NamespaceManager (bind with override/replace/numbered fallbacks, compute_qname with caches and tries, split_uri executable for all Unicode given "
+             "a category table): after any sequence of operations outside the F6b trigger the two store dicts are mutually inverse partial maps, qname/curie use a prefix bound NOW to that namespace "
+             "(what the fix: commit for the cache buys) and expand back to the IRI; get_longest_namespace returns the longest known namespace on a well-formed trie (insert_trie well-formedness "
+             "not proved: partial). Three known findings. Tied by histories of bind/qname/expand plus a conformance suite with parse/serialize/default prefixes.",
+        design="0, 7/C17", technique="Coq proof (dictionary bijection invariant over bind histories, section-abstract split function with exactness hypothesis)" + T_CORR),
+    "C19": dict(
+        text="Proof: on a statement-by-statement model of collection.py over an insertion-ordered triple list: outside the trigger regions every operation returns what the Python list returns, "
+             "preserves the representation invariant and a well-formed rdf:first/rdf:rest chain (C19_refines_partial), IndexError for i > len, reads terminate on every graph and raise on cyclic "
+             "chains; five known findings (del c[0], c[len], negative indices, += [] on empty, index() on a looping chain) with refuting witnesses. Tied by histories of list operations from "
+             "lengths 0-5 incl. falsy members and duplicates, and reads on cyclic/broken chains with a CPU-time hang detector.",
+        design="0, 7/C19", technique="Coq proof (refinement of a Python list with representation invariant, fuel shown sufficient on well-formed chains)" + T_CORR),
     "C20": dict(
         text="Proof: on a model of SPARQLStore/SPARQLUpdateStore as request algebra + edit queue over a specification-level endpoint: every write has the same effect as on a local dataset, "
              "triples for all 8 shapes and len mirror the endpoint, and for every history the endpoint equals the due writes in order (commit / non-dirty read / rollback rules) by simulation; "
